@@ -226,8 +226,15 @@ def python_wrappers(htm_py_src):
             "counts = self.cbincount(rmin, rmax, nbin, ra1, dec1, ra2, dec2, htmrev2, minmax_ids, scale, verb)",
             "if getbins:\n    lower, upper = log_bins(rmin, rmax, nbin)\n    return (lower, upper, counts)\nelse:\n    return counts"]),
     }
+    nravel = 0
     for name, (wargs, wbody) in want.items():
         args, body = stmts(name)
+        # fixes/C13/0003 flattens N-d coordinate arrays: `.astype('f8').ravel()` / `.astype('i8').ravel()`; accepted on
+        # all 8 conversions or on none (the harness produces N-d inputs only when it is there)
+        for dt in ("f8", "i8"):
+            k = ".astype('%s').ravel()" % dt
+            nravel += sum(b.count(k) for b in body)
+            body = [b.replace(k, ".astype('%s')" % dt) for b in body]
         # the size test of the second list compares ra2 with itself in the as-found code (a typo that only concerns
         # invalid inputs); both spellings are accepted
         body = [b.replace("ra2.size != ra2.size", "ra2.size != <RA2-OR-DEC2>.size").replace("ra2.size != dec2.size", "ra2.size != <RA2-OR-DEC2>.size")
@@ -237,7 +244,9 @@ def python_wrappers(htm_py_src):
         if body != wbody:
             k = next((i for i, (a, b) in enumerate(zip(body, wbody)) if a != b), min(len(body), len(wbody)))
             raise TranslateError("htm.py: HTM.%s changed at statement %d: %r" % (name, k, body[k] if k < len(body) else "<missing>"))
-    return True
+    if nravel not in (0, 8):
+        raise TranslateError("htm.py: %d of the 8 array conversions of lookup_id/bincount are flattened (expected none or all)" % nravel)
+    return {"ravel": nravel == 8}
 
 
 def vector_ops(vec_src, edge_src, index_src, iface_h, iface_cpp, htmc_src, general_src):
@@ -303,7 +312,7 @@ def translate(impl_root):
             raise TranslateError("cannot read %s: %s" % (path, e))
     out = cbincount(rd("esutil", "htm", "htmc.cc"))
     log_bins(rd("esutil", "htm", "htm.py"))
-    python_wrappers(rd("esutil", "htm", "htm.py"))
+    out.update(python_wrappers(rd("esutil", "htm", "htm.py")))
     out.update(id_by_point(rd("esutil", "htm", "htm_src", "SpatialIndex.cpp"), rd("esutil", "htm", "htm_src", "SpatialGeneral.h")))
     src = lambda f: rd("esutil", "htm", "htm_src", f)
     out.update(vector_ops(src("SpatialVector.cpp"), src("SpatialEdge.cpp"), src("SpatialIndex.cpp"), src("SpatialInterface.h"),
